@@ -7,7 +7,8 @@ From DP Require Import Common.Tab Managed.Model Managed.Contrib Managed.Simp Man
 Import ListNotations.
 Open Scope Z_scope.
 
-Definition norc_pc (p : pc) : bool := match p with OResize _ | OClose => false | _ => true end.
+Definition norc_pc (p : pc) : bool :=
+  match p with OResize _ | OClose | OResizeL _ | OCloseL => false | _ => true end.
 
 Definition norc_label (l : label) : bool :=
   match l with
@@ -133,7 +134,7 @@ Proof.
     + destruct (alive s && all_done (tasks s)); inversion H; subst. apply CI_tick. ci_plain s G A C Hpc.
   - (* Step *)
     unfold step_task in H.
-    destruct (pcof s t) as [|g|g|g a|g|g|g o st|g|g o|g o k|g o k|g o k|r|r|o|o| |o|o|o|o|o|o|n|ds| | | |r] eqn:Hpc;
+    destruct (pcof s t) as [|g|g|g a|g|g|g o st|g|g o|g o k|g o k|g o k|r|r|o|o| |o|o|o|o|o|o|n|ds| | | |n|ds|ds| | |r] eqn:Hpc;
       cbn [option_map] in H; try discriminate H.
     + (* GStart *) destruct (gr g); [|destruct (runtime c)..]; inversion H; subst; apply CI_tick; ci_plain s G A C Hpc.
     + (* GAcq *) inversion H; subst. apply CI_tick, CI_acquire; assumption.
@@ -170,7 +171,24 @@ Proof.
     + (* TAdd *) inversion H; subst. apply CI_tick. ci_sem s t G A C Hpc.
     + (* TDetach *) inversion H; subst. apply CI_tick. ci_plain s G A C Hpc.
     + (* OResize *) pose proof (ci_norc _ _ C t) as Hn. rewrite Hpc in Hn. discriminate Hn.
-    + (* ORetain *)
+    + (* ORetain: to the lock point of its status() call *) inversion H; subst. apply CI_tick. ci_plain s G A C Hpc.
+    + (* OClose *) pose proof (ci_norc _ _ C t) as Hn. rewrite Hpc in Hn. discriminate Hn.
+    + (* OStatus: to its lock point *) inversion H; subst. apply CI_tick. ci_plain s G A C Hpc.
+    + (* ODropPool *)
+      inversion H; subst. apply CI_tick.
+      match goal with |- CI c (setpc (emit_destroyed t ?l ?x) t _) =>
+        pose proof (emit_destroyed_fields t l x) as F; cbv zeta in F; sp;
+        destruct F as (F1&F2&F3&F4&F5&F6&F7&F8&F9&F10&F11&F12&F13) end.
+      destruct C as [C1 C2 C3 C4 C5].
+      constructor.
+      * apply norc_setpc with (s := s); [rewrite F9; reflexivity|exact C1|reflexivity].
+      * sp. rewrite F7. exact C2.
+      * sp. rewrite F6. exact C3.
+      * sp. rewrite F2. exact C4.
+      * sp. rewrite F11. intros Ha. discriminate Ha.
+    + (* OResizeL *) pose proof (ci_norc _ _ C t) as Hn. rewrite Hpc in Hn. discriminate Hn.
+    + (* ORetainS: to retain's own lock point *) inversion H; subst. apply CI_tick. ci_plain s G A C Hpc.
+    + (* ORetainL *)
       pose proof (retain_loop_effect t ds (vec s) s) as E.
       destruct (retain_loop t ds (vec s) s) as [[s1 kept] removed].
       destruct E as (E1&E2&E3&E4&E5&E6&E7&E8&E9&E10&E11&E12&E13&E14).
@@ -187,23 +205,11 @@ Proof.
       * sp. rewrite F2, E2. exact C4.
       * sp. rewrite F11, E11, F4, F1, E1, F9, E9. intros Ha. specialize (C5 Ha).
         rewrite ?(sum_upd PNone) by reflexivity. unfold pcof in Hpc. rewrite ?Hpc. cbn [hp ell]. lia.
-    + (* OClose *) pose proof (ci_norc _ _ C t) as Hn. rewrite Hpc in Hn. discriminate Hn.
-    + (* OStatus *) inversion H; subst. apply CI_tick. ci_plain s G A C Hpc.
-    + (* ODropPool *)
-      inversion H; subst. apply CI_tick.
-      match goal with |- CI c (setpc (emit_destroyed t ?l ?x) t _) =>
-        pose proof (emit_destroyed_fields t l x) as F; cbv zeta in F; sp;
-        destruct F as (F1&F2&F3&F4&F5&F6&F7&F8&F9&F10&F11&F12&F13) end.
-      destruct C as [C1 C2 C3 C4 C5].
-      constructor.
-      * apply norc_setpc with (s := s); [rewrite F9; reflexivity|exact C1|reflexivity].
-      * sp. rewrite F7. exact C2.
-      * sp. rewrite F6. exact C3.
-      * sp. rewrite F2. exact C4.
-      * sp. rewrite F11. intros Ha. discriminate Ha.
+    + (* OCloseL *) pose proof (ci_norc _ _ C t) as Hn. rewrite Hpc in Hn. discriminate Hn.
+    + (* OStatusL *) inversion H; subst. apply CI_tick. ci_plain s G A C Hpc.
   - (* Env *)
     unfold env_task in H.
-    destruct (pcof s t) as [|g|g|g a|g|g|g o st|g|g o|g o k|g o k|g o k|r0|r0|o|o| |o|o|o|o|o|o|n|ds| | | |r0] eqn:Hpc;
+    destruct (pcof s t) as [|g|g|g a|g|g|g o st|g|g o|g o k|g o k|g o k|r0|r0|o|o| |o|o|o|o|o|o|n|ds| | | |n|ds|ds| | |r0] eqn:Hpc;
       cbn [option_map] in H; try discriminate H.
     + (* GRec *)
       destruct r; inversion H; subst; apply CI_tick; [|ci_plain s G A C Hpc..].
@@ -219,7 +225,7 @@ Proof.
         ci_plain s G A C Hpc.
   - (* Cancel *)
     unfold cancel_task in H.
-    destruct (pcof s t) as [|g|g|g a|g|g|g o st|g|g o|g o k|g o k|g o k|r0|r0|o|o| |o|o|o|o|o|o|n|ds| | | |r0] eqn:Hpc;
+    destruct (pcof s t) as [|g|g|g a|g|g|g o st|g|g o|g o k|g o k|g o k|r0|r0|o|o| |o|o|o|o|o|o|n|ds| | | |n|ds|ds| | |r0] eqn:Hpc;
       cbn [option_map] in H; try discriminate H.
     + inversion H; subst. apply CI_tick. eapply CI_leave_wait; try eassumption; reflexivity.
     + destruct (stage_async c st); inversion H; subst. apply CI_tick. ci_plain s G A C Hpc.
@@ -227,7 +233,7 @@ Proof.
     + destruct (is_async (pcr c) k); inversion H; subst. apply CI_tick. ci_plain s G A C Hpc.
   - (* Fire *)
     unfold fire_task in H. destruct (negb (runtime c)); [discriminate|].
-    destruct (pcof s t) as [|g|g|g a|g|g|g o st|g|g o|g o k|g o k|g o k|r0|r0|o|o| |o|o|o|o|o|o|n|ds| | | |r0] eqn:Hpc;
+    destruct (pcof s t) as [|g|g|g a|g|g|g o st|g|g o|g o k|g o k|g o k|r0|r0|o|o| |o|o|o|o|o|o|n|ds| | | |n|ds|ds| | |r0] eqn:Hpc;
       cbn [option_map] in H; try discriminate H.
     + destruct (gw g); inversion H; subst. apply CI_tick. eapply CI_leave_wait; try eassumption; reflexivity.
     + destruct st; try discriminate H. destruct (timed (gr g)); inversion H; subst. apply CI_tick. ci_plain s G A C Hpc.
